@@ -17,7 +17,7 @@ RULE = ("document pairs of every type x type-selection grid {none, --X-TYPE, --X
         "suggests, or an alias pair is compared, and the documents differ; distinct = distinct argv + documents")
 ASSUMPTIONS = ["the library composition mirrors the documented public API; it is validated byte-for-byte against main() on the plain cases",
                "stderr is not compared"]
-MINIMUMS = {"quick": {"cli_vs_library": 3000, "alias_pairs": 1500, "explicit_type_overrides_name:first": 300,
+MINIMUMS = {"quick": {"cli_vs_library": 3000, "alias_pairs": 3000, "explicit_type_overrides_name:first": 300,
                       "explicit_type_overrides_name:second": 300},
             "thorough": {"cli_vs_library": 60000, "alias_pairs": 30000, "explicit_type_overrides_name:first": 6000,
                          "explicit_type_overrides_name:second": 6000}}
@@ -31,7 +31,7 @@ def plan(tier, seed):
     for k in range(ns):
         specs.append({"stratum": "selection-grid", "n": per, "k": k, "clean": True})
     for k in range(2 if q else 8):
-        specs.append({"stratum": "aliases", "n": 120 if q else 1500, "k": k, "clean": True})
+        specs.append({"stratum": "aliases", "n": 70 if q else 1200, "k": k, "clean": True})
     return specs
 
 
@@ -189,6 +189,17 @@ def check(case, ctx):
                 (f"--from-{t} == --from-mime", base + [f"--from-{t}"], base + ["--from-mime", formats.mime_of(t)]),
                 (f"--to-{t} == --to-mime", base + [f"--to-{t}"], base + ["--to-mime", formats.mime_of(t)]),
                 ("-l == --no-list-edits", ["--no-status"] + case["mode"] + ["-l"], ["--no-status"] + case["mode"] + ["--no-list-edits"]),
+                ("-ll == --no-list-edits-when-same-length", ["--no-status"] + case["mode"] + ["-ll"],
+                 ["--no-status"] + case["mode"] + ["--no-list-edits-when-same-length"]),
+                ("-ds match == --dict-strategy match", base + ["-ds", "match"], base + ["--dict-strategy", "match"]),
+                ("-e == --only-edits", ["--no-status", "-e"], ["--no-status", "--only-edits"]),
+                ("-d == --edit-digest", ["--no-status", "-d"], ["--no-status", "--edit-digest"]),
+                ("-f json == --format json", base + ["-f", "json"] if not case.get("fmt") else base, base + ["--format", "json"] if not case.get("fmt") else base),
+                ("-c == --color", base + ["-c"], base + ["--color"]),
+                ("-jl == --join-lists", base + ["-jl"], base + ["--join-lists"]),
+                ("-jd == --join-dict-items", base + ["-jd"], base + ["--join-dict-items"]),
+                ("-m == --match-if", base + ["-m", "from == to"], base + ["--match-if", "from == to"]),
+                ("-u == --match-unless", base + ["-u", "from == to"], base + ["--match-unless", "from == to"]),
             ]
             for name, x, y in pairs:
                 rx = monitors.run_main(x + [pa, pb])
